@@ -2,7 +2,7 @@
 import gc
 
 from traits.api import (DelegatesTo, HasStrictTraits, HasTraits, Instance,
-                        Int, PrototypedFrom, TraitError)
+                        Int, List, Property, PrototypedFrom, TraitError)
 
 LEVEL = "model_checking"
 RULE = ("every history up to the depth bound over: assign through the "
@@ -78,8 +78,22 @@ class Middle(HasTraits):
 
 
 class Top(HasTraits):
-    middle = Instance(Middle)
+    middle = Instance(HasTraits)
     w = DelegatesTo("middle", prefix="width")
+
+
+class MiddleP(HasTraits):
+    """the delegate attribute is a Property: it never lives in the instance
+    dictionary"""
+    leaves = List(Instance(Leaf))
+    current = Int(0)
+    leaf = Property(Instance(Leaf), observe="leaves.items, current")
+    width = DelegatesTo("leaf")
+
+    def _get_leaf(self):
+        if self.current < len(self.leaves):
+            return self.leaves[self.current]
+        return None
 
 
 class Engine(HasStrictTraits):
@@ -106,9 +120,12 @@ class World:
     def __init__(self, kind):
         self.kind = kind
         self.calls = {}
-        if kind == "chain":
+        if kind.startswith("chain"):
             self.leaves = [Leaf(), Leaf()]
-            self.mid = Middle(leaf=self.leaves[0])
+            if kind == "chainprop":
+                self.mid = MiddleP(leaves=self.leaves)
+            else:
+                self.mid = Middle(leaf=self.leaves[0])
             self.top = Top(middle=self.mid)
             self.cur = 0
             self.M = [{"width": 10}, {"width": 10}]
@@ -171,7 +188,7 @@ class World:
 
 def menu(kind):
     evs = []
-    if kind == "chain":
+    if kind.startswith("chain"):
         for v in VALS:
             evs += [("set_top", v), ("set_mid", v)]
             evs += [("set_leaf", i, v) for i in (0, 1) if v != "bad"]
@@ -217,7 +234,7 @@ def step(ctx, w, ev, hist, check):
     w.clear()
     ctx.tr()
     k = ev[0]
-    if w.kind == "chain":
+    if w.kind.startswith("chain"):
         return chain_step(ctx, w, ev, hist, bad) and good
     c = w.c
     cur = w.parents[w.cur]
@@ -341,6 +358,10 @@ def chain_step(ctx, w, ev, hist, bad):
             exc = None
         except TraitError as e:
             exc = e
+        except Exception as e:
+            bad("chain-raises", "assignment through the chain raised %r"
+                % (e,))
+            return False
         if v == "bad":
             ctx.outcome("invalid-rejected")
             if exc is None:
@@ -359,7 +380,7 @@ def chain_step(ctx, w, ev, hist, bad):
         old = w.M[i]["width"]
         w.leaves[i].width = v
         w.M[i]["width"] = v
-        if old != v:
+        if old != v and w.kind == "chain":
             for key in (("w", "otc"), ("w", "obs"), ("mid.width", "otc"),
                         ("mid.width", "obs")):
                 got = w.calls[key]
@@ -377,7 +398,10 @@ def chain_step(ctx, w, ev, hist, bad):
                 else:
                     ctx.outcome("former-delegate-silent")
     elif k == "swap":
-        mid.leaf = w.leaves[ev[1]]
+        if w.kind == "chainprop":
+            mid.current = ev[1]
+        else:
+            mid.leaf = w.leaves[ev[1]]
         w.cur = ev[1]
     for i, lf in enumerate(w.leaves):
         if lf.width != w.M[i]["width"]:
@@ -396,8 +420,8 @@ def chain_step(ctx, w, ev, hist, bad):
 
 
 def canon(w):
-    if w.kind == "chain":
-        return ("chain", w.M, w.cur)
+    if w.kind.startswith("chain"):
+        return (w.kind, w.M, w.cur)
     return (w.kind, w.P, sorted(w.L.items()), w.cur, sorted(w.unhooked))
 
 
@@ -451,7 +475,8 @@ def run_history(ctx, kind, hist):
 
 def shards(tier):
     out = []
-    for kind in ("delegate", "proto", "proto2", "proto2late", "chain"):
+    for kind in ("delegate", "proto", "proto2", "proto2late", "chain",
+                 "chainprop"):
         for i in range(len(menu(kind))):
             out.append({"kind": kind, "first": i})
     return out
@@ -460,7 +485,7 @@ def shards(tier):
 def run_shard(ctx, shard, tier):
     kind = shard["kind"]
     evs = menu(kind)
-    small = kind in ("proto2", "proto2late", "chain")
+    small = kind in ("proto2", "proto2late", "chain", "chainprop")
     depth = (5 if small else 3) if tier == "quick" else (6 if small else 4)
     frontier = [[]]
     n_exec = 0
